@@ -1,10 +1,10 @@
 import Cvss.Base.Go
 import Cvss.Gen.V40
 set_option linter.unusedVariables false
-/-! GENERATED from /repo/40 (parser mode) — do not edit -/
+/-! GENERATED from package 40 (parser mode) — do not edit -/
 namespace GenP40
 
-/-- ParseVector: body of the loop at /repo/40/cvss40.go:71:3 -/
+/-- ParseVector: body of the loop at cvss40.go -/
 def ParseVector_for2 (abv : (List Nat)) : (Nat × Nat) → Go.Ctl (Nat × Nat) (Go.Res (Nat × Nat × Nat × Nat × Nat × Nat × Nat × Nat × Nat))
   | (orderi, slci) =>
     match (cond (Nat.beq slci (0 : Nat))
@@ -31,7 +31,7 @@ def ParseVector_for2 (abv : (List Nat)) : (Nat × Nat) → Go.Ctl (Nat × Nat) (
         (Go.Ctl.brk (orderi, slci))
         (Go.Ctl.next (orderi, slci)))
 
-/-- ParseVector: body of the loop at /repo/40/cvss40.go:52:2 -/
+/-- ParseVector: body of the loop at cvss40.go -/
 def ParseVector_for1 (vector : (List Nat)) : (Nat × Nat × Nat × Nat × Nat × Nat × Nat × Nat × Nat × Nat × Nat × Nat × Nat) → Go.Ctl (Nat × Nat × Nat × Nat × Nat × Nat × Nat × Nat × Nat × Nat × Nat × Nat × Nat) (Go.Res (Nat × Nat × Nat × Nat × Nat × Nat × Nat × Nat × Nat))
   | (i, cut, orderi, slci, u0, u1, u2, u3, u4, u5, u6, u7, u8) =>
     match (cond (!(Nat.beq i (List.length vector)))
@@ -70,7 +70,7 @@ def ParseVector_for1 (vector : (List Nat)) : (Nat × Nat × Nat × Nat × Nat ×
           (Go.Ctl.ret (Go.Res.err err))
           (Go.Ctl.next (i, cut, orderi, slci, u0, u1, u2, u3, u4, u5, u6, u7, u8))))
 
-/-- ParseVector  (/repo/40/cvss40.go:30:1)
+/-- ParseVector  (cvss40.go)
     result: `Go.Res.ok fields` = `return obj, nil`; `Go.Res.err e` = `return nil, e`; `Go.Res.panic` -/
 def ParseVector (vector : (List Nat)) : (Go.Res (Nat × Nat × Nat × Nat × Nat × Nat × Nat × Nat × Nat)) :=
   cond (!(Go.hasPrefix vector ([67, 86, 83, 83, 58, 52, 46, 48] : List Nat) /- CVSS:4.0 -/))
